@@ -1,7 +1,7 @@
 (* Props/C06.v — audited surface for property C06 (error / failure policy state machine). *)
 From Coq Require Import ZArith List Bool PrimFloat String.
 Import ListNotations.
-Require Import PyBase Solver SolverFacts SolverFacts2 SolverFacts3 SolverFacts4 SolverFacts5 SolverFacts6 SolverFacts7 SolverF SolverExamples SolverExamples2.
+Require Import PyBase Solver SolverFacts SolverFacts2 SolverFacts3 SolverFacts4 SolverFacts5 SolverFacts6 SolverFacts7 SolverFacts8 SolverDefaults SolverF SolverExamples SolverExamples2.
 Require Import SolveAll SolveAllF SolveAllFacts SolveAllFacts2 SolveAllExamples SolveAllExamples2 SolveAllHistF SolveAllHistFacts.
 Require Fsic.Gen.Generated.
 Open Scope Z_scope.
@@ -227,6 +227,7 @@ Section C06.
   Proof. exact (solve_t_complete_spec num sub absf ltb isfin zero ev before after d o t s p v1). Qed.
 
   (* what `stops` and `result_at` say, spelled out (definitional unfoldings, so that the theorem above can be read here) *)
+  (* (definitional unfoldings — not counted as covering a clause) *)
   Theorem C06_stops_unfold d o t p c0 v1 N j :
     stops num sub absf ltb isfin zero ev d o t p c0 v1 N j =
     (match snd (evk o t j (st_after o t v1 (j - 1))) with Some _ => true | None => false end) ||
@@ -456,6 +457,8 @@ Proof. exact (run_hcall_edit sc d kind c s span). Qed.
 Theorem C06_status_alphabet_matches_source :
   map st_char [Unsolved; Solved; Failed; ErrorSt; Skipped] = Generated.status_values.
 Proof. exact status_alphabet_matches_source. Qed.
+(* NOTE: true by the five-constructor type `st` (the model's oracles cannot write a status); the content of the alphabet clause is the
+   provenance part of the invariants above and the tie of the five letters to the regenerated SolutionStatus values *)
 Theorem C06_status_always_in_alphabet (x : st) : In (st_char x) Generated.status_values.
 Proof. exact (status_always_in_alphabet x). Qed.
 
@@ -525,6 +528,21 @@ Theorem C06_after_hook_warning_caught sc d (o : fopts) t (s : fstate) p ps k0 pr
    Raise (SolutionError (Some 1))).
 Proof. exact (f_after_warning_caught sc d o t s p ps k0 pre i x rest). Qed.
 
+(* ---- binary64: the abstract `isfin` of the theorems above is, for NumPy float64 (the instantiation K runs), "neither NaN nor an
+   infinity" — exactly np.isfinite; instances: NaN, +inf, -inf, 1/0, 0/0 and an overflowing product are non-finite; zeros, the largest
+   finite value and the smallest subnormal are finite; 'replace' puts 0.0 in place of exactly the non-finite entries.  The defaults
+   errors='raise', catch_first_error=True used for omitted keywords are those of the working tree (C02_solver_defaults_documented) ---- *)
+Theorem C06_float_nonfinite_is_nan_or_inf x :
+  fisfin x = false <-> PrimFloat.is_nan x = true \/ PrimFloat.is_infinity x = true.
+Proof. exact (float_nonfinite_is_nan_or_inf x). Qed.
+Theorem C06_float_finiteness_instances :
+  fisfin nan = false /\ fisfin infinity = false /\ fisfin neg_infinity = false /\
+  fisfin 0 = true /\ fisfin (-0) = true /\ fisfin 0x1.fffffffffffffp+1023 = true /\ fisfin 0x0.0000000000001p-1022 = true /\
+  fisfin (PrimFloat.div 1 0) = false /\ fisfin (PrimFloat.div 0 0) = false /\
+  fisfin (PrimFloat.mul 0x1p+1023 2) = false /\
+  replace_nonfinite float fisfin fzero [nan; 1%float; infinity] = [0%float; 1%float; 0%float].
+Proof. exact float_finiteness_instances. Qed.
+
 (* finding #5: under 'replace' the pass after a non-finite pass IS judged (against zeros) — the clause
    "a pass that starts from non-finite check values is never judged" is refuted for replace *)
 Theorem C06_replace_judged_after_nonfinite_refuted :
@@ -566,6 +584,8 @@ Print Assumptions C06_history_status_invariant.
 Print Assumptions C06_history_status_invariant_general.
 Print Assumptions C06_history_call_is_api_call.
 Print Assumptions C06_history_edit_keeps_status.
+Print Assumptions C06_float_nonfinite_is_nan_or_inf.
+Print Assumptions C06_float_finiteness_instances.
 Print Assumptions C06_status_alphabet_matches_source.
 Print Assumptions C06_status_always_in_alphabet.
 Print Assumptions C06_catch_first_warning_no_store.
